@@ -171,7 +171,7 @@ fn check_dots_literal_error(
             let signature_id =
                 LuaSignatureId::from_closure(semantic_model.get_file_id(), &closure_expr);
             let signature = context.db.get_signature_index().get(&signature_id)?;
-            if !signature.params.iter().any(|param| param == "...") {
+            if !signature.is_vararg && !signature.params.iter().any(|param| param == "...") {
                 context.add_diagnostic(
                     DiagnosticCode::SyntaxError,
                     literal_expr.get_range(),
